@@ -108,7 +108,7 @@ Print Assumptions C03_parse_sound.
 
 (** the same at every level of the recursion, any depth *)
 Theorem C03_level_sound_closed : forall fuel c toks st0 st,
-  tree_ok fuel c -> G c idx_inv st0 -> get_matches_with fuel c toks st0 = ROk st ->
+  tree_ok fuel c -> G c idx_inv trivV st0 -> get_matches_with fuel c toks st0 = ROk st ->
   Relations c (mt st).
 Proof. exact level_relations. Qed.
 Print Assumptions C03_level_sound_closed.
